@@ -36,21 +36,38 @@ func VerifC11() {
 
 	var ctx context.Context
 	var cancel context.CancelFunc
-	mode := verif.Choose("context", 3)
+	mode := verif.Choose("context", 5)
 	switch mode {
 	case 0: // deadline that passes at some point
 		ctx, cancel = context.WithTimeout(bg, 150*time.Millisecond)
 	case 1: // already cancelled when the action starts
 		ctx, cancel = context.WithCancel(bg)
 		cancel()
+	case 3: // a distant deadline, but cancelled when the action starts
+		ctx, cancel = context.WithTimeout(bg, 3*time.Second)
+		cancel()
+	case 4: // a distant deadline, cancelled by somebody else while the action runs
+		ctx, cancel = context.WithTimeout(bg, 3*time.Second)
+		go func() {
+			time.Sleep(50 * time.Millisecond)
+			cancel()
+		}()
 	default: // never ends
 		ctx, cancel = context.WithCancel(bg)
 		verif.Assume(!looping) // a looping script under a context that never ends is outside the property
 	}
 	defer cancel()
 
+	started := time.Now()
 	exe, err := interp.Exec(ctx, match.Bindings{"a": 1.0}, core.StepProps{}, s.src, compiled)
 	verif.Reach("exec-returned")
+	if mode == 3 || mode == 4 {
+		// the end of the context interrupts the script - not the (distant) deadline it also carries
+		verif.Assert("cancellation-interrupts-before-the-distant-deadline", time.Since(started) < time.Second)
+	}
+	if mode == 4 {
+		time.Sleep(100 * time.Millisecond) // (the harness's own cancelling goroutine is done by then)
+	}
 	if looping {
 		verif.Assert("looping-script-reports-timeout", err == Interrupted)
 		verif.Assert("interrupted-script-emits-nothing", exe == nil)
